@@ -265,7 +265,7 @@ Definition rd_code (rdk : bytes -> Z -> ures cst) (inp : bytes) (b : Z) : ures c
         | MkOk =>
         match rd_many rdk (Z.to_nat nk) inp7 b7 with
         | UOk ks inp8 b8 =>
-          match consume b8 8 with None => UBudget | Some b9 =>
+          match consume b8 (2 + 2 + 2 + 8) with None => UBudget | Some b9 =>
           match rd_raw 2 inp8 b9 with
           | UOk uc inp9 b10 =>
           match rd_raw 2 inp9 b10 with
